@@ -64,6 +64,9 @@ R = {
  "C13c-derive-enum-tag-declared-or-position": ("C13", ["C13 quick: VIOLATION (EnDisc: Low and Mid feed the same byte stream)"],
    "missed at first: no derived enum of the universe declared discriminants. Enums with partly declared discriminants (unit variants and data variants with a small payload domain) were added."),
  "C15c-vacuum-two-pass-removes-revived-entry": ("C15", ["C15 quick: VIOLATION (31 s, two live handles of equal values, different allocations)"], "caught as built (third change for C15)"),
+ "C16c-unpin-drops-repinned-entry": ("C16", ["C16 quick: VIOLATION (40 s, quiescent: 46 resident entries, bound is capacity 8 + 1 + pinned 0 + slack 34)"], "caught as built (third change for C16; Notify strategy, entry pinned again before its Unpinned message is processed)"),
+ "C16d-remove-closure-check-then-remove": ("C16", ["C16 quick: VIOLATION (28 s, op #377: key 35 is pinned but entry(35) found it vacant (evicted))", "C02 quick: OK"],
+   "caught as built by C16 (fourth change for C16). The sub-agent was given C02's text: the split lock it causes in the query lock table is the lock-table clause of C16, and C16's multi-threaded cache and lock-table plans report the eviction of a pinned entry. C02's own check stays green: its engine-level part schedules all tasks on one thread, where check-then-remove cannot be interleaved, and its OS-thread part drives the containers of C02's anchors, not the cache (a multi-threaded engine stress with a tiny lock table is not built; see 7.2)."),
 }
 rows = []
 for sid, (prop, ran, note) in R.items():
@@ -73,7 +76,7 @@ for sid, (prop, ran, note) in R.items():
     am = json.load(open(f"{d}/agent_meta.json"))
     meta = {
         "property": prop,
-        "what_it_needs_to_manifest": am.get("needs_to_manifest"),
+        "what_it_needs_to_manifest": am.get("needs_to_manifest") or am.get("what_it_needs_to_manifest"),
         "summary": am.get("summary"),
         "confirmed_by_me": VERIFY,
         "checks_run_against_it": ["tools/seed_eval.sh %s ... (git -C /repo apply; ./check <Cxx> quick with VERIF_SEED=0; git -C /repo checkout -- .)" % sid] + ran,
